@@ -1,3 +1,141 @@
 // Kani harnesses (child module of crates/axmos-db/src/sql/planner/rules.rs).  See /verif/HARNESS_GUIDE.md
+// C06 (index scan == table scan), half (b): the real `FilterToIndexScanRule::collect_bounds` is run on a concrete
+// one-comparison predicate (`col op literal` and `literal op col`, literal value symbolic) and the produced
+// (range_start, range_end, residual) is compared with the table the executor relies on (c06_bounds.rs, half (a)):
+//   col = c  -> start {c, incl} + end {c, incl}      c = col  -> same
+//   col > c  -> start {c, excl}                      c > col  -> end   {c, excl}     (col < c)
+//   col >= c -> start {c, incl}                      c >= col -> end   {c, incl}     (col <= c)
+//   col < c  -> end   {c, excl}                      c < col  -> start {c, excl}     (col > c)
+//   col <= c -> end   {c, incl}                      c <= col -> start {c, incl}     (col >= c)
+//   anything else (<>, non-indexed column, col op col) -> residual, no bound
+// where a range_start bound {c, incl} selects keys v > c (or = c if incl) and a range_end bound keys v < c (or = c).
+// The predicate is a depth-1 expression tree, so the recursive AND arm of collect_bounds is never entered.
 #![allow(unused_imports, dead_code, clippy::all)]
 use super::*;
+use crate::types::{DataType, Float64, Int64};
+
+const COL: usize = 2; // table column used in the predicate
+const POS: usize = 1; // its position in the index key [5, 2]
+fn col(idx: usize) -> BoundExpression {
+    BoundExpression::ColumnBinding(Binding { table_id: None, scope_index: 0, column_idx: idx, data_type: DataTypeKind::BigInt })
+}
+fn lit(v: i64) -> BoundExpression {
+    BoundExpression::Literal { value: DataType::BigInt(Int64(v)) }
+}
+fn cmp(left: BoundExpression, op: BinaryOperator, right: BoundExpression) -> BoundExpression {
+    BoundExpression::BinaryOp { left: Box::new(left), op, right: Box::new(right), result_type: DataTypeKind::Bool }
+}
+// `residual.push(expr.clone())`: CBMC cannot constant-fold the discriminants behind the Boxes, so it explores the
+// derived `BoundExpression::clone` for every variant (BoundSelect, Schema, HashMap ... recursion depth 5, > 250 s).
+// The clone is replaced by a counting stub that returns a marker literal: the harnesses then decide *whether* the
+// predicate was sent to the residual, not that the residual copy is faithful (derive(Clone), not C06's subject).
+static mut CLONES: u32 = 0;
+pub(crate) fn stub_clone(_e: &BoundExpression) -> BoundExpression {
+    unsafe {
+        CLONES += 1;
+    }
+    BoundExpression::Literal { value: DataType::Null }
+}
+fn clones() -> u32 {
+    unsafe { CLONES }
+}
+struct Got {
+    start: Vec<IndexRangeBound>,
+    end: Vec<IndexRangeBound>,
+    residual: Vec<BoundExpression>,
+}
+fn run(expr: &BoundExpression) -> Got {
+    let indexed = [5usize, COL];
+    let mut g = Got { start: Vec::new(), end: Vec::new(), residual: Vec::new() };
+    FilterToIndexScanRule.collect_bounds(7, expr, &indexed, &mut g.start, &mut g.end, &mut g.residual);
+    g
+}
+/// `v` holds exactly one bound {BigInt c, inclusive, position POS}
+fn one_bound(v: &Vec<IndexRangeBound>, c: i64, inclusive: bool) -> bool {
+    v.len() == 1 && v[0].inclusive == inclusive && v[0].col_idx == POS && matches!(&v[0].value, DataType::BigInt(x) if x.0 == c)
+}
+const START: u8 = 0;
+const END: u8 = 1;
+const BOTH: u8 = 2;
+const RESIDUAL: u8 = 3;
+fn check(expr: BoundExpression, c: i64, side: u8, inclusive: bool) {
+    let before = clones();
+    let g = run(&expr);
+    assert!(clones() - before == (side == RESIDUAL) as u32, "predicate_copied_to_residual_iff_unsupported");
+    match side {
+        START => {
+            assert!(one_bound(&g.start, c, inclusive), "range_start_bound_as_expected");
+            assert!(g.end.is_empty(), "no_range_end_bound");
+            assert!(g.residual.is_empty(), "predicate_consumed_not_in_residual");
+        }
+        END => {
+            assert!(one_bound(&g.end, c, inclusive), "range_end_bound_as_expected");
+            assert!(g.start.is_empty(), "no_range_start_bound");
+            assert!(g.residual.is_empty(), "predicate_consumed_not_in_residual");
+        }
+        BOTH => {
+            assert!(one_bound(&g.start, c, true) && one_bound(&g.end, c, true), "equality_gives_both_inclusive_bounds");
+            assert!(g.residual.is_empty(), "predicate_consumed_not_in_residual");
+        }
+        _ => {
+            assert!(g.start.is_empty() && g.end.is_empty(), "no_bound_for_unsupported_predicate");
+            assert!(g.residual.len() == 1, "unsupported_predicate_kept_in_residual");
+        }
+    }
+    std::mem::forget(g);
+    std::mem::forget(expr);
+}
+// @obl harness=c06_rule_col_op_lit id=C06.index_bounds_mapping[col op literal] tier=quick funcs="FilterToIndexScanRule::collect_bounds,FilterToIndexScanRule::extract_column_info,FilterToIndexScanRule::extract_literal" bounds="op in {=,>,>=,<,<=}, BigInt literal symbolic, column at position 1 of a 2-column index" stubs="<BoundExpression as Clone>::clone" unwind=5
+#[kani::proof]
+#[kani::unwind(5)]
+#[kani::stub(<BoundExpression as std::clone::Clone>::clone, stub_clone)]
+fn c06_rule_col_op_lit() {
+    let c: i64 = kani::any();
+    kani::cover!(true, "reach");
+    check(cmp(col(COL), BinaryOperator::Eq, lit(c)), c, BOTH, true);
+    check(cmp(col(COL), BinaryOperator::Gt, lit(c)), c, START, false);
+    check(cmp(col(COL), BinaryOperator::Ge, lit(c)), c, START, true);
+    check(cmp(col(COL), BinaryOperator::Lt, lit(c)), c, END, false);
+    check(cmp(col(COL), BinaryOperator::Le, lit(c)), c, END, true);
+}
+// @obl harness=c06_rule_lit_op_col id=C06.index_bounds_mapping[literal op col] tier=quick funcs="FilterToIndexScanRule::collect_bounds,FilterToIndexScanRule::extract_column_info,FilterToIndexScanRule::extract_literal" bounds="op in {=,>,>=,<,<=} with the literal on the left (the comparison is mirrored), BigInt literal symbolic" stubs="<BoundExpression as Clone>::clone" unwind=5
+#[kani::proof]
+#[kani::unwind(5)]
+#[kani::stub(<BoundExpression as std::clone::Clone>::clone, stub_clone)]
+fn c06_rule_lit_op_col() {
+    let c: i64 = kani::any();
+    kani::cover!(true, "reach");
+    check(cmp(lit(c), BinaryOperator::Eq, col(COL)), c, BOTH, true);
+    check(cmp(lit(c), BinaryOperator::Lt, col(COL)), c, START, false); // c <  col  <=> col >  c
+    check(cmp(lit(c), BinaryOperator::Le, col(COL)), c, START, true); //  c <= col  <=> col >= c
+    check(cmp(lit(c), BinaryOperator::Gt, col(COL)), c, END, false); //   c >  col  <=> col <  c
+    check(cmp(lit(c), BinaryOperator::Ge, col(COL)), c, END, true); //    c >= col  <=> col <= c
+}
+// @obl harness=c06_rule_residual id=C06.index_bounds_mapping[not indexable -> residual] tier=quick funcs="FilterToIndexScanRule::collect_bounds" bounds="col <> c, c <> col, non-indexed column = c, col = col, Double literal on an indexed column stays a bound" stubs="<BoundExpression as Clone>::clone" unwind=5
+#[kani::proof]
+#[kani::unwind(5)]
+#[kani::stub(<BoundExpression as std::clone::Clone>::clone, stub_clone)]
+fn c06_rule_residual() {
+    let c: i64 = kani::any();
+    kani::cover!(true, "reach");
+    check(cmp(col(COL), BinaryOperator::Neq, lit(c)), c, RESIDUAL, false);
+    check(cmp(lit(c), BinaryOperator::Neq, col(COL)), c, RESIDUAL, false);
+    check(cmp(col(9), BinaryOperator::Eq, lit(c)), c, RESIDUAL, false); // column 9 is not part of the index
+    check(cmp(col(COL), BinaryOperator::Eq, col(5)), c, RESIDUAL, false);
+}
+// the literal is taken over verbatim (no cast to the column type): a Double literal against a BigInt column
+// @obl harness=c06_rule_double_literal id=C06.index_bounds_mapping[col > Double literal] tier=quick funcs="FilterToIndexScanRule::collect_bounds" bounds="every f64 literal" stubs="<BoundExpression as Clone>::clone" unwind=5
+#[kani::proof]
+#[kani::unwind(5)]
+#[kani::stub(<BoundExpression as std::clone::Clone>::clone, stub_clone)]
+fn c06_rule_double_literal() {
+    let x: f64 = kani::any();
+    kani::cover!(true, "reach");
+    let e = cmp(col(COL), BinaryOperator::Gt, BoundExpression::Literal { value: DataType::Double(Float64(x)) });
+    let g = run(&e);
+    assert!(g.start.len() == 1 && g.end.is_empty() && g.residual.is_empty(), "range_start_bound_as_expected");
+    assert!(!g.start[0].inclusive && g.start[0].col_idx == POS, "range_start_bound_as_expected");
+    assert!(matches!(&g.start[0].value, DataType::Double(v) if v.0.to_bits() == x.to_bits()), "literal_value_unchanged");
+    std::mem::forget(g);
+    std::mem::forget(e);
+}
